@@ -21,6 +21,7 @@ DRIVER = os.path.join(VERIF, "mirfacts", "target", "debug", "mirfacts")
 CACHE = os.path.join(VERIF, ".cache", "facts")
 
 EXPECTED_CRATES = [
+    "mpcheck_fixture",
     "margined_common",
     "margined_perp",
     "margined_engine",
@@ -79,6 +80,15 @@ def generate(repo, out_dir):
         )
         if p.returncode != 0:
             raise AnalysisError("cargo check failed under the driver:\n" + p.stdout[-4000:])
+        # positive-control fixture, compiled by the same driver (no cargo)
+        fx = os.path.join(VERIF, "fixtures", "mpcheck_fixture.rs")
+        env2 = dict(env)
+        p2 = subprocess.run(
+            [DRIVER, "rustc", "--crate-name", "mpcheck_fixture", "--crate-type", "lib", "--edition", "2021",
+             "-Zmir-opt-level=0", "-Awarnings", "--emit=metadata", "--out-dir", tgt, fx],
+            env=env2, stdout=subprocess.PIPE, stderr=subprocess.STDOUT, text=True)
+        if p2.returncode != 0:
+            raise AnalysisError("fixture crate failed under the driver:\n" + p2.stdout[-2000:])
     finally:
         shutil.rmtree(tgt, ignore_errors=True)
     missing = [c for c in EXPECTED_CRATES if not os.path.exists(os.path.join(out_dir, c + ".json"))]
